@@ -186,7 +186,15 @@ func runJob(j job) (res result) {
 	mfs := fstest.MapFS{"main.go": &fstest.MapFile{Data: []byte(p.Src)}}
 	i := interp.New(interp.Options{SourcecodeFilesystem: mfs, Stdout: new(bytes.Buffer), Stderr: new(bytes.Buffer)})
 	i.Use(stdlib.Symbols)
-	i.Use(interp.Exports{"h/h": {"Tick": reflect.ValueOf(func(n int) { g.tick(n) })}})
+	i.Use(interp.Exports{"h/h": {
+		"Tick": reflect.ValueOf(func(n int) { g.tick(n) }),
+		// Each calls back into the script: a host function holding a script function
+		"Each": reflect.ValueOf(func(n int, f func(int)) {
+			for k := 0; k < n; k++ {
+				f(k)
+			}
+		}),
+	}})
 	g.bypass = goid()
 	curInterp.Store(i)
 	curGate.Store(g)
